@@ -52,6 +52,9 @@ def run_one(case):
             for k in ("myst_enable_extensions", "myst_fence_as_directive"):
                 if k in settings and isinstance(settings[k], list):
                     settings[k] = set(settings[k])
+            # docutils' default report level: INFO messages (e.g. docutils' own, cached, directive / role / language
+            # lookup notices) are not part of the produced doctree or warning stream
+            settings.setdefault("report_level", 2)
             snap = copy.deepcopy(settings)
             doc, ws = publish(text, settings, source_path=src, writer=case.get("writer"))
             out = doc if isinstance(doc, str) else doc.pformat()
